@@ -116,6 +116,7 @@ fn run_process(pc: &ProcCfg, files: &BTreeMap<String, String>, hash_seed: Option
         2 => cmd.args(["-c", "sub/../oal.toml"]),
         3 => cmd.args(["-c", &format!("{dir}/oal.toml")]),
         4 => cmd.args(["-c", "link/oal.toml"]),
+        7 => cmd.args(["-c", &format!("{dir}/link/oal.toml")]),
         _ => cmd.args(["-m", "main.oal", "-t", "out.yaml", "-b", "base.yaml"]),
     };
     match verbosity {
@@ -126,7 +127,14 @@ fn run_process(pc: &ProcCfg, files: &BTreeMap<String, String>, hash_seed: Option
         5 => cmd.arg("-q"),
         _ => &mut cmd,
     };
-    cmd.current_dir(&dir);
+    // the working directory as a shell would hand it over: reached directly, or through a
+    // symbolic link with $PWD saying so (after `cd link`), or directly with a $PWD that names
+    // the link
+    match spelling {
+        5 => cmd.current_dir(format!("{dir}/link")).env("PWD", format!("{dir}/link")),
+        6 => cmd.current_dir(&dir).env("PWD", format!("{dir}/link")),
+        _ => cmd.current_dir(&dir).env("PWD", &dir),
+    };
     if hash_seed.is_some() || fake_time.is_some() {
         cmd.env("LD_PRELOAD", &pc.shim);
     }
@@ -391,7 +399,7 @@ pub fn run(seed: u64, run: u64) -> Report {
         let t0 = 1_700_000_000i64;
         let h1 = er.next_u64();
         let h2 = er.next_u64();
-        let sp = |er: &mut Rng| er.below(5) as u8;
+        let sp = |er: &mut Rng| er.below(8) as u8;
         envs.push(Env::Process { hash_seed: Some(h1), fake_time: Some(t0), aslr_off: true, spelling: 0, verbosity: 0 });
         envs.push(Env::Process { hash_seed: Some(h2), fake_time: Some(t0), aslr_off: true, spelling: sp(&mut er), verbosity: er.below(6) as u8 });
         envs.push(Env::Process { hash_seed: Some(h2), fake_time: Some(t0 + day), aslr_off: true, spelling: sp(&mut er), verbosity: er.below(6) as u8 });
